@@ -46,7 +46,7 @@ ASSUMPTIONS = [
     'numbers are compared by value (True -> 1.0 and 3 -> 3.0 are legitimate); integers '
     'beyond 2^53 are only generated where the wire type is int64 (integer bounds, '
     'steps, ids), not as parameter values (number_value is a double)',
-    'instants must agree within 1 microsecond; durations within 0.5 microsecond plus '
+    'instants (microsecond-resolution datetimes) must be equal; durations within 0.5 microsecond plus '
     'float rounding',
     'masked as documented not-transmitted: Metric.std, Measurement.checkpoint_path, '
     'Trial.related_links, the text of Trial.stopping_reason (its presence is compared)',
@@ -63,7 +63,7 @@ ASSUMPTIONS = [
     'trial states are generated coherently (is_requested only without stopping reason / '
     'completion; completion_time only on completed trials)',
     'the second conversion is compared after sorting metrics by name and aligning '
-    'Timestamp/Duration fields that agree to 1 microsecond; a pure re-ordering of the '
+    'Timestamp/Duration fields that agree to within half a microsecond; a pure re-ordering of the '
     'repeated metadata KeyValue entries (a map by meaning; the datastore itself keeps it '
     'sorted) is counted (reconversions_identical_up_to_metadata_order) but not flagged',
     'through-service slices run on VizierServicer(database_url="sqlite:///:memory:") '
